@@ -25,21 +25,23 @@ def dictionary(value, dictionary_class):
     return value
 
 
+_NUMBER_FIELD = r"(?:[0-9]+\.?[0-9]*|\.[0-9]+)"
+
+_NUMBER_REGEXPS = (
+    # int / float, optionally signed, padded or in exponent notation
+    re.compile(rf"^\s*[-+]?{_NUMBER_FIELD}(?:[eE][-+]?[0-9]+)?\s*$"),
+    # sexagesimal: d:m or d:m:s, fields separated by ':', ';' or blank
+    re.compile(
+        rf"^\s*[-+]?\s*{_NUMBER_FIELD}(?:\s*[:; ]\s*{_NUMBER_FIELD}){{1,2}}\s*$"
+    ),
+)
+
+
 def number(value):
-    regexps = (
-        r"^\-?\d+$",  # int
-        r"^\-?\d+\.\d+$",
-        r"^\-?\d+\.$",
-        r"^\-?\.\d+$",  # float
-        r"^\-?\d+:\d{2}$",  # :mm
-        r"^\-?\d+:\d{2}\.\d+$",  # :mm.m
-        r"^\-?\d+:\d{2}:\d{2}$",  # :mm:ss
-        r"^\-?\d+:\d{2}:\d{2}\.\d+$",  # :mm:ss.s
-    )
     if value is None:
         return None
 
-    if not any([re.match(r, str(value)) for r in regexps]):
+    if not any(r.match(str(value)) for r in _NUMBER_REGEXPS):
         raise ValueError("Invalid value for number: %s", value)
 
     return value
